@@ -1671,6 +1671,10 @@ def run(ctx):
                 if not (name == "mhn"):
                     ctx.fail(key, desc, "vector or raise", st, "neither a gradient vector nor a refusal")
 
+    # ======================================================================= 10b. session-3 streams (own random streams; harness/props/c03_ext.py)
+    from harness.props import c03_ext
+    c03_ext.run_all(ctx, cuqi, thorough)
+
     # ======================================================================= 11. retained outputs re-verified (G8)
     ctx.case("retained-outputs", {"n_arrays": len(RETAINED)})
     for label, arr, snap in RETAINED:
